@@ -125,6 +125,10 @@ def _map_child(case, storage, mode, root, log, cleanup, out, crash_at=None, tear
                 res["prelude"] = type(e).__name__
             finally:
                 signal.alarm(0)
+        if crash_children:
+            # a pool worker is about to die: CPython's pool occasionally never reports that (not our subject) - give up then
+            signal.signal(signal.SIGALRM, lambda signum, frame: os._exit(97))
+            signal.alarm(120)
         try:
             pipeline = mapgen.build_pipeline(case, log=log, fault=fault)
             kw = {"parallel": False}
@@ -422,6 +426,9 @@ def run_case(desc):
             # a WORKER process of a process pool dies at its k-th fs event; the coordinating process sees a broken pool
             out1 = os.path.join(scratch, "crash.out")
             rc = _map_child(case, desc["st"], "process", root, log1, True, out1, crash_at=desc["k"], trace=trace, crash_children=True)
+            if rc == 97:
+                v.count("worker_death_attempt_hung_not_judged")
+                return v.result(evaluations=v.counters.get("resumes", 0), )
             ev = fsmon.read_trace(trace)
             if not any(len(e) > 5 for e in ev):
                 v.count("crash_point_not_reached")
